@@ -178,6 +178,13 @@ def run(chk):
     if not r0.violated:
         raise core.MachineryError('self-test: the model without the lock around forced writes should fail')
     chk.extra['unlocked_model_violates'] = r0.violated
+    # the login step: the cipher is installed under the lock that covers the encryption response (fixed code);
+    # the model of the code as it was must violate NoPlaintextAfterEncResponse
+    chk.tlc('MC_ConnWriter', 'ConnWriter_login.cfg')
+    r1 = chk.tlc('MC_ConnWriter', 'ConnWriter_login_unfixed.cfg', must_pass=False)
+    if 'NoPlaintextAfterEncResponse' not in r1.violated:
+        raise core.MachineryError('self-test: the model with the cipher installed outside the lock should fail')
+    chk.extra['swap_outside_lock_model_violates'] = r1.violated
 
     traces = []
     # ---- preemption-bounded exploration of small scenarios
